@@ -195,18 +195,25 @@ def _is0(i):
 
 # float32 mode (opt-in, integer-valued operands only): Num.f32 marks a value numba types as float32; a sum or difference
 # of two such values is rounded to float32 (round-half-even); mixed float32/float64 arithmetic is float64 (exact here)
-F32 = {'on': False, 'rounded': 0}
+F32 = {'on': False, 'rounded': 0, 'sum_exp': 25, 'prod_exp': 50, 'defs': None}
 _B24 = 1 << 24
 
 
-def rnd32_int(d):
-    """float32 rounding of an integer d with |d| <= 2^25 (z3 Int term or python int): exact up to 2^24, beyond
-    that the nearest even integer, ties to the one whose half is even"""
+def rnd32_int(d, maxexp=25):
+    """float32 rounding (round-half-even) of an integer d with |d| <= 2^(maxexp+1) (z3 Int term or python int): exact up
+    to 2^24; in the binade [2^e, 2^(e+1)) the result is the nearest multiple of 2^(e-23), ties to the even multiple"""
     if not z3.is_expr(d):
         d = z3.IntVal(int(d))
-    q = d / 2                       # floor division for Int terms
-    up = z3.If(q % 2 == 0, 2 * q, 2 * q + 2)
-    return z3.If(z3.And(d >= -_B24, d <= _B24), d, z3.If(d % 2 == 1, up, d))
+    a = z3.If(d >= 0, d, -d)
+
+    def round_to(u):
+        q, rem = a / u, a % u
+        return q * u + z3.If(z3.Or(rem > u // 2, z3.And(rem == u // 2, q % 2 == 1)), u, 0)
+    r = round_to(1 << (maxexp - 23))
+    for e in range(maxexp - 1, 23, -1):
+        r = z3.If(a < (1 << (e + 1)), round_to(1 << (e - 23)), r)
+    r = z3.If(a <= _B24, a, r)
+    return z3.If(d >= 0, r, -r)
 
 
 class Num:
@@ -254,10 +261,16 @@ class Num:
         nan = Or(wrapb(self.nan), wrapb(on))
         if F32['on'] and self.f32 and isinstance(o, Num) and o.f32:
             # numba types float32 (op) float32 as float32: the result is rounded to 24 significant bits
-            if kind in ('add', 'sub', 'rsub'):
+            if kind in ('add', 'sub', 'rsub', 'mul'):
+                # operands are integers within F32['sum_exp'] / F32['prod_exp'] bits (asserted by the query's domain)
                 F32['rounded'] += 1
-                return Num(rnd32_int(f(self.v, ov)), nan, 0, True)
-            raise Unsupported(f"float32 {kind} float32 (only sums and differences of float32 operands are modelled)")
+                rv = rnd32_int(f(self.v, ov), F32['prod_exp'] if kind == 'mul' else F32['sum_exp'])
+                if F32.get('defs') is not None:        # name the rounded value (keeps the terms small); the definition goes to the solver
+                    nv = z3.Int(f"f32_{len(F32['defs'])}")
+                    F32['defs'].append(nv == rv)
+                    rv = nv
+                return Num(rv, nan, 0, True)
+            raise Unsupported(f"float32 {kind} float32 (only sums, differences and products of float32 operands are modelled)")
         return Num(f(self.v, ov), nan)
 
     def _sign(self):
